@@ -27,6 +27,8 @@ pub fn strategy(max_triples: usize) -> impl Strategy<Value = RingCase> {
         6 => 2usize..40,
         2 => prop_oneof![Just(63usize), Just(64), Just(65), Just(127), Just(128), Just(129)],
         2 => 40usize..=max_triples.max(41),
+        // long lists: several 512-bit superblocks per wavelet-tree level, dense levels
+        1 => 600usize..=1200,
     ];
     (1u8..=40, 1u8..=6, 1u8..=60, len).prop_flat_map(|(ns, np, no, n)| {
         proptest::collection::vec((0u8..ns, 0u8..np, 0u8..no), n).prop_map(move |triples| RingCase { ns, np, no, triples })
